@@ -14,6 +14,7 @@ import (
 	"flag"
 	"fmt"
 	"math/rand"
+	"os/exec"
 	"sort"
 	"strings"
 	"sync"
@@ -518,8 +519,51 @@ func retryRun(args []string) int {
 	interval := fs.Duration("interval", 2*time.Millisecond, "RetryInterval of the exhaustive part")
 	long := fs.Duration("long", 60*time.Second, "RetryInterval of the wait during which the context is ended")
 	par := fs.Int("par", 16, "schedulers running concurrently")
+	canary := fs.Int("canary", -1, "internal: run the single case script \"ep\" in the given mode and exit")
 	fs.Parse(args)
 	r := rand.New(rand.NewSource(*seed))
+
+	if *canary >= 0 {
+		res := runRetryCase(retryCase{mode: *canary % 3, maxRetries: 2, script: "ep", interval: *interval}, *long)
+		for _, v := range res.viol {
+			fmt.Println(v)
+		}
+		return 0
+	}
+	// A panic that is not contained kills the process. Find that out in a child process first, so that
+	// it is reported as what it is, with its input.
+	crashed := []string{}
+	for mode := range retryModes {
+		cmd := exec.Command(selfExe(), "retry", "--canary", fmt.Sprint(mode), "--out", *out)
+		done := make(chan struct{})
+		var outp []byte
+		var cerr error
+		go func() { outp, cerr = cmd.CombinedOutput(); close(done) }()
+		select {
+		case <-done:
+		case <-time.After(90 * time.Second):
+			_ = cmd.Process.Kill()
+			<-done
+		}
+		if cerr != nil {
+			first := ""
+			for _, l := range strings.Split(string(outp), "\n") {
+				if strings.HasPrefix(l, "panic:") || strings.HasPrefix(l, "fatal error:") {
+					first = l
+					break
+				}
+			}
+			crashed = append(crashed, fmt.Sprintf("C13 a panicking job was not contained: the process running the scheduler died (%v; %s) [mode=%s MaxRetries=2 script=\"ep\": second attempt panics]", cerr, first, retryModes[mode]))
+		}
+	}
+	if len(crashed) > 0 {
+		writeLines(*out+"/ops.txt", nil)
+		writeLines(*out+"/impl.txt", nil)
+		writeJSON(*out+"/stats.json", map[string]any{"seed": *seed, "evaluations": len(crashed), "distinct_nontrivial": len(crashed),
+			"distribution": map[string]map[string]int{"canary": {"process died": len(crashed)}}, "violations": crashed, "samples": []any{}})
+		fmt.Printf("retry: the scheduler process dies when a job panics (%d of %d modes), %d property violations\n", len(crashed), len(retryModes), len(crashed))
+		return 0
+	}
 
 	var cases []retryCase
 	if *maxLen > 0 {
